@@ -343,7 +343,7 @@ pub fn c15_pair_check(c: &C15Pair, info: &mut CaseInfo) -> Result<(), Fail> {
 }
 
 pub fn run_c14(ctx: &mut Ctx) {
-    let n = ctx.count(300_000, 3_000_000);
+    let n = ctx.count(1_000_000, 3_000_000);
     ctx.run("refill4-vs-refill", n, c14_strategy(), c14_check);
     ctx.required_classes.push("low-word carry inside refill4".into());
     ctx.required_classes.push("counter wraps 2^64".into());
